@@ -11,6 +11,9 @@ import OdfModel.Abs
 namespace Odf.Transform
 open Odf.Rle Odf.Table Odf.Grid
 
+/-- `Cell.is_empty(aggressive)` on interned payloads: 0 = empty unstyled, 1 = empty styled (see harness/tables.py) -/
+def empOf (aggressive : Bool) (c : Nat) : Bool := if aggressive then c < 2 else c == 0
+
 /-- remove the trailing items satisfying `p` -/
 def rstripList {α} (p : α → Bool) (l : List α) : List α := (l.reverse.dropWhile p).reverse
 
